@@ -150,6 +150,13 @@ func VH_mdiff_Chunks() {
 	d.AddContext(n)
 	vCover("context-added")
 	vCheckChunks(d, "after AddContext", n, false, false)
+	if n2 := vCase("ctx2"); n2 > 0 {
+		// widening the context in steps is still "after AddContext"
+		d.AddContext(n2)
+		vCover("context-added-twice")
+		vCheckChunks(d, "after a second AddContext", n+n2, false, false)
+		vAssert(vEditsUnchanged(d.Edits, snap), "Edits not disturbed by a second AddContext")
+	}
 	vAssert(vEditsUnchanged(d.Edits, snap), "Edits not disturbed by AddContext")
 	d.Unify()
 	vCover("unified")
